@@ -250,7 +250,7 @@ pub axiom fn axiom_string_ext(a: String, b: String)
 //@contract
     requires projects@.contains_key(import_dir),
     ensures
-        /*[C14.import-name]*/ r is Ok ==> import_ok(projects@, import_dir, import_name),
+        /*[C14.import-name,C19.names-unique]*/ r is Ok ==> import_ok(projects@, import_dir, import_name),
 //@pre
         broadcast use group_keys;
         broadcast use vstd::std_specs::hash::group_hash_axioms;
@@ -303,7 +303,7 @@ impl YamlConfig {
 //@contract
     ensures
         r matches Ok(c) ==> c.projects@.contains_key(c.root_project_dir),
-        /*[C14.unique]*/ r matches Ok(c) ==> names_distinct(c.projects@),
+        /*[C14.unique,C09.names-unique,C19.names-unique]*/ r matches Ok(c) ==> names_distinct(c.projects@),
         /*[C18.canonical]*/ r matches Ok(c) ==> all_canonical(c.projects@),
 //@pre
         broadcast use group_keys;
@@ -316,7 +316,7 @@ impl YamlConfig {
                 all_canonical(projects@),
                 it.seq().unref().to_set() == projects@.values(),
                 forall|v: Project| #![trigger it.seq().take(it.index@ as int).unref().to_set().contains(v)] it.seq().take(it.index@ as int).unref().to_set().contains(v) && v.name is Some ==> project_names@.contains(&v.name->Some_0),
-                /*[C14.unique]*/ distinct_in(it.seq().take(it.index@ as int).unref().to_set()),
+                /*[C14.unique,C09.names-unique,C19.names-unique]*/ distinct_in(it.seq().take(it.index@ as int).unref().to_set()),
 //@loopbody
             broadcast use group_keys;
             broadcast use axiom_strref_key_model;
@@ -359,7 +359,7 @@ pub fn collect_by_name(ps: HashMap<PathBuf, Project>) -> (r: HashMap<Option<Stri
 //@replace `(project.name.clone(), (project_dir.into(), project))` => `(project.name.clone(), (path_into(project_dir), project))` rule=R11 pre why=`std PathBuf -> async PathBuf conversion is the identity on the prelude's single PathBuf type`
 //@contract
     ensures
-        /*[C14.injective]*/ r.0 == project.name && r.1 == (project_dir, project),
+        /*[C14.injective,C09.names-unique,C19.names-unique]*/ r.0 == project.name && r.1 == (project_dir, project),
 //@end
 
 #[verifier::external_body]
@@ -375,8 +375,8 @@ impl Config {
         config.projects@.contains_key(config.root_project_dir),
     ensures
         /*[C19.root-name]*/ r.root_project_name == config.projects@[config.root_project_dir].name,
-        /*[C14.injective]*/ forall|d: PathBuf| #![trigger config.projects@[d]] config.projects@.contains_key(d) ==> r.projects@.contains_key(config.projects@[d].name),
-        /*[C14.injective]*/ forall|k: Option<String>| #![trigger r.projects@[k]] r.projects@.contains_key(k) ==> config.projects@.contains_key(r.projects@[k].0) && config.projects@[r.projects@[k].0] == r.projects@[k].1 && r.projects@[k].1.name == k,
+        /*[C14.injective,C09.names-unique,C19.names-unique]*/ forall|d: PathBuf| #![trigger config.projects@[d]] config.projects@.contains_key(d) ==> r.projects@.contains_key(config.projects@[d].name),
+        /*[C14.injective,C09.names-unique,C19.names-unique]*/ forall|k: Option<String>| #![trigger r.projects@[k]] r.projects@.contains_key(k) ==> config.projects@.contains_key(r.projects@[k].0) && config.projects@[r.projects@[k].0] == r.projects@[k].1 && r.projects@[k].1.name == k,
 //@pre
         broadcast use group_keys;
         broadcast use vstd::std_specs::hash::group_hash_axioms;
